@@ -38,12 +38,21 @@ func tagIfParser(doc *Parser, start *Token, arguments *Parser) (INodeTag, *Error
 	}
 
 	// Check the rest
+	afterElse := false
 	for {
 		wrapper, tagArgs, err := doc.WrapUntilTag("elif", "else", "endif")
 		if err != nil {
 			return nil, err
 		}
 		ifNode.wrappers = append(ifNode.wrappers, wrapper)
+
+		if afterElse && wrapper.Endtag != "endif" {
+			// The body that just ended was opened by an else: nothing but
+			// endif may follow it (an elif behind an else would pair the
+			// conditions with the wrong bodies).
+			return nil, tagArgs.Error("Only 'endif' is allowed after 'else'.", nil)
+		}
+		afterElse = wrapper.Endtag == "else"
 
 		if wrapper.Endtag == "elif" {
 			// elif can take a condition
